@@ -485,8 +485,8 @@ Print Assumptions C12_oracle_sound_partial.
 From PB Require Import FdlOracleSound11 FdlOracleSoundAll.
 
 Theorem C12_oracle_sound_partial_req : forall (A : Type) (ops : app_ops A) (p : params),
-  apps_total A ops -> builder_valid p -> app_sends_data A ops -> app_sends_requests A ops ->
-  forall (apps : list A) (ins : list minput), ins_ok 0 ins ->
+  apps_total A ops -> builder_valid p -> app_sends_data A ops ->
+  forall (apps : list A) (ins : list minput), app_sends_requests A ops -> ins_ok 0 ins ->
   forall k r, In (k, r) (monitor p (length apps) (model_transcript A ops p apps ins)) -> rule_prop r = PC12 ->
   In r [R12_sweep_bound; R12_post_claim_scan_incomplete; R12_gap_wait_never_ends].
 Proof. exact c12_open_req. Qed.
